@@ -1,5 +1,6 @@
 import AvoVerif.Drv.Common
 import AvoVerif.Props.C15
+import AvoVerif.Model.Locals
 import AvoVerif.Gen.Regs
 namespace Avo.Drv.C15
 open Avo.Drv Avo.Reg Avo.BP
@@ -13,42 +14,61 @@ def boolTok : List String → Option (Bool × List String)
   | "0" :: ts => some (false, ts)
   | _ => none
 
-/-- Why the acceptor says no (first violated clause of the property). -/
-def explain (attrs : Nat) (ls : Int) (hasCall : Bool) (o : Outcome) : String :=
+/-- Why the acceptor says no (first violated clause of the property).  `what`:
+"" for the resulting LocalSize, "text-" for the frame printed on the TEXT line. -/
+def explain (what : String) (attrs : Nat) (hasCall clob : Bool) (o : Outcome) : String :=
   match o with
-  | .err => "bad-refused-although-not-noframe"
+  | .err => if !clob then "bad-refused-although-bp-untouched" else "bad-refused-although-not-noframe"
   | .ok ls' =>
     if attrNoFrame attrs then "bad-noframe-not-refused"
-    else if ls' ≤ 0 then s!"bad-no-frame {ls'}"
-    else if !asmSavesBP ls' (attrNoFrame attrs) (attrNoSplit attrs) hasCall then "bad-assembler-does-not-save"
-    else if !asmSavesBPQuoted ls' (attrNoFrame attrs) (attrNoSplit attrs) hasCall then "bad-older-assembler-does-not-save"
-    else s!"bad {ls} {ls'}"
+    else if ls' ≤ 0 then s!"bad-{what}no-frame {ls'}"
+    else if autoffset ls' != ls' && !(autoffset ls' > 0) then
+      -- the declared frame does not survive the assembler's int32 truncation: nothing is allocated
+      s!"bad-{what}frame-wraps-int32 declared={ls'} assembler-allocates={autoffset ls'}"
+    else if !asmSavesBP ls' (attrNoFrame attrs) (attrNoSplit attrs) hasCall then s!"bad-{what}assembler-does-not-save"
+    else if !asmSavesBPQuoted ls' (attrNoFrame attrs) (attrNoSplit attrs) hasCall then s!"bad-{what}older-assembler-does-not-save"
+    else s!"bad {ls'}"
+
+/-- The frame on a printed TEXT line, `$frame[-args]`, as a number (the assembler's truncation is applied
+by the acceptor). -/
+def textFrame? (t : String) : Option Int :=
+  (Avo.Locals.parseTextSize t.toList).map (fun p => (p.1 : Int))
 
 def handle : Handler
   /- `bp <attrs> <localSize> <n (id mask)*>`: exact model of EnsureBasePointerCalleeSaved on the
-     bound output registers → `err noframe` | `ok <localSize>` -/
+     bound output registers → `err` | `ok <localSize>` (error versus no error: the message is not compared) -/
   | "bp" :: a :: l :: rest => do
     let attrs ← a.toNat?
     let ls ← l.toInt?
     let (outs, _) ← listOf regTok rest
     some (match ensureBP (attrNoFrame attrs) ls (clobbersBP Avo.Gen.regs [outs]) with
-      | .error .noframeClobbersBP => "err noframe"
+      | .error .noframeClobbersBP => "err"
       | .ok ls' => s!"ok {ls'}")
-  /- `accept-bp <attrs> <localSize> <hasCall> <n (id mask)*> => err <class> | ok <localSize'>`: the property
-     itself on the implementation's outcome; "modifies BP" is the hardware notion (GP number 5) -/
+  /- `accept-bp <attrs> <localSize> <hasCall> <n (id mask)*> => err | panic | ok <localSize'> [<$frame[-args]>]`: the
+     property itself on the implementation's outcome; "modifies BP" is the hardware notion (GP number 5); with the
+     last token the frame printed on the function's TEXT line is judged as well -/
   | "accept-bp" :: a :: l :: rest => do
     let attrs ← a.toNat?
     let ls ← l.toInt?
     let (hasCall, rest) ← boolTok rest
     let (outs, rest) ← listOf regTok rest
     let clob := clobbersBPHW [outs]
+    let judge := fun (what : String) (o : Outcome) =>
+      if acceptBP attrs ls hasCall clob o then "ok" else explain what attrs hasCall clob o
     match rest with
     | "=>" :: "panic" :: _ => some "bad-panic"
-    | "=>" :: "err" :: _ =>
-      some (if acceptBP attrs ls hasCall clob .err then "ok" else explain attrs ls hasCall .err)
+    | "=>" :: "err" :: _ => some (judge "" .err)
     | ["=>", "ok", l'] =>
       let ls' ← l'.toInt?
-      some (if acceptBP attrs ls hasCall clob (.ok ls') then "ok" else explain attrs ls hasCall (.ok ls'))
+      some (judge "" (.ok ls'))
+    | ["=>", "ok", l', text] =>
+      let ls' ← l'.toInt?
+      match judge "" (.ok ls') with
+      | "ok" =>
+        match textFrame? text with
+        | none => some "bad-text-unreadable"
+        | some fr => some (judge "text-" (.ok fr))
+      | bad => some bad
     | _ => none
   /- `accept-bp-exec <attrs> <frame> <hasCall> <clobbersHW> <same|changed|crash>`: measured by calling the
      printed, assembled function: the caller's BP must be unchanged -/
